@@ -389,3 +389,62 @@ def run(ctx, rep):
     okreg = len(regs) == 1 and A.src(regs[0].args[0]) == "self.fileno()"
     rep.ob("R11.6", "Stream.poll: polls this stream's own descriptor", okreg, "p.register(self.fileno(), ...)" if okreg else
            "poll registers something else than the stream's descriptor", fp.loc, kind="site")
+    _eof_identity(ctx, rep)
+
+
+def _eof_identity(ctx, rep):
+    """R11.7: between the stream and Connection.serve the end-of-stream signal keeps its class. serve() closes the connection
+    on EOFError only; a layer in between that re-labels it (raise IOError(...) in a handler) or swallows it leaves the side
+    open after the transport has gone."""
+    rep.rule("R11.7", "the end-of-stream signal reaches serve() as EOFError: the channel neither converts nor swallows it")
+    CH = "rpyc.core.channel.Channel"
+    n_sites = 0
+    for mname in ("recv", "send", "poll"):
+        f = ctx.func(CH + "." + mname)
+        marks = [c for c in A.calls(f.node) if isinstance(c.func, ast.Attribute) and K.self_attr(c.func.value, "stream")]
+        if not marks:
+            continue
+
+        def rs(node_ast, kind, marks=marks):
+            if node_ast is None or kind in ("with_exit", "except", "with_enter", "for"):
+                return set()
+            if isinstance(node_ast, ast.Raise):
+                return None
+            if any(c is m_ for m_ in marks for c in A.calls(node_ast)):
+                return {EOFError}
+            return set()
+        g = ctx.cfg(f, raises=rs)
+        rep.analysed(f, g)
+
+        def relabels(x):
+            if x.ast is None or not isinstance(x.ast, ast.Raise) or x.ast.exc is None:
+                return False
+            e = x.ast.exc
+            nm = A.dotted(e.func) if isinstance(e, ast.Call) else A.dotted(e)
+            if nm == "EOFError":
+                return False
+            kc = ctx.repo.resolve_class(f.module, nm) if nm else None
+            if kc is not None and any("EOFError" in [A.dotted(b) for b in k_.node.bases] for k_ in ctx.repo.mro(kc)):
+                return False           # a package subclass of EOFError is still caught by `except EOFError`
+            return True
+        for n in g.live:
+            if n.ast is None or n.kind not in ("stmt", "test") or not any(c is m_ for m_ in marks for c in A.calls(n.ast)):
+                continue
+            for t, l in n.succ:
+                if l != "exc":
+                    continue
+                n_sites += 1
+                if t is g.excexit:
+                    bad = None
+                else:
+                    bad = Q.find_path_ef([t], lambda x: x is g.exit or relabels(x), lambda a, b, l2: True, skip_first=False)
+                what = None
+                if bad:
+                    what = "swallowed (the method returns normally)" if bad[-1] is g.exit else \
+                        "re-raised as `%s`" % A.src(bad[-1].ast)[:80]
+                rep.ob("R11.7", "Channel.%s: EOFError out of `%s` leaves the method as EOFError" % (mname, A.norm(n.ast)[:50]),
+                       bad is None, "propagates unchanged" if bad is None else
+                       "the end-of-stream signal is %s: Connection.serve() closes the connection (hook, tables) on EOFError only, so "
+                       "this side stays open and on_disconnect never runs although the transport is gone" % what,
+                       ctx.loc(n), witness=ctx.path([n] + bad) if bad else None)
+    rep.floor("R11.7", "stream calls in Channel.recv/send/poll", n_sites, 3)
